@@ -145,6 +145,12 @@ def check_limits(R, F):
     sk = F.fn(NW + 'skip_compressed_name')
     tup = [st for blk in sk.blocks if not blk['cleanup'] for st in blk['stmts'] if st['k'] == 'assign' and st['rv']['k'] == 'agg' and st['rv'].get('ak') == 'tuple' and len(st['rv']['ops']) == 2]
     shapes = sorted((paths.show_operand(sk, st['rv']['ops'][0]), paths.show_operand(sk, st['rv']['ops'][1])) for st in tup)
+    if not tup:
+        # the rule reads the two lengths off the (minimum uncompressed length, chunk length) pair the scan records; code
+        # that carries them differently (two arguments of a helper, two variables) is a shape it does not decide
+        R.bad('limits', NW + 'skip_compressed_name|uncompressed-length-counts-null', sk.where(), 'cannot find the (minimum uncompressed length, chunk length) pair in skip_compressed_name: shape not recognised')
+        R.floor('limits', 9)
+        return
     R.require(shapes == [('Add(var:usize,1_usize)', 'Add(var:usize,1_usize)'), ('Add(var:usize,1_usize)', 'Add(var:usize,2_usize)')], 'limits', NW + 'skip_compressed_name|uncompressed-length-counts-null', sk.where(),
               '(minimum uncompressed length, chunk length) = (offset+1, offset+1) for a null label and (offset+1, offset+2) for a pointer', 'skip_compressed_name tracks %s' % shapes)
     chk = [paths.show_operand(sk, sk.blocks[b]['term']['op']) for b in range(len(sk.blocks)) if sk.blocks[b]['term']['k'] == 'switch' and not sk.blocks[b]['cleanup']]
